@@ -104,6 +104,12 @@ func TestC03WellFormed(t *testing.T) {
 
 		if rapid.IntRange(0, 3).Draw(t, "doclinks") == 0 {
 			c.Doc.Links = map[string]jsonapi.Link{"related": {HRef: gen.HostileString(t, "href"), Meta: gen.JSONObject(t, "linkmeta", 1, 2)}}
+
+			// (the caller may have put something under "self" as well: meta
+			// for the link, with or without a target)
+			if rapid.Bool().Draw(t, "doclinks-self") {
+				c.Doc.Links["self"] = jsonapi.Link{HRef: rapid.SampledFrom([]string{"", "", "/stale"}).Draw(t, "doclinks-self-href"), Meta: map[string]any{"k": 1}}
+			}
 		}
 
 		// A sequence of Include calls: primary members, equal-content twins,
